@@ -422,14 +422,17 @@ def r_layout(run, F, T, external=True, rule="R-LAYOUT", casts=True):
                 if c[0] == "match":
                     okc = is_call(c[1], "num_traits::FromPrimitive::from_u8") or (isinstance(c[1], tuple) and c[1][0] == "proj" and is_call(c[1][1], "num_traits::FromPrimitive::from_u8")) \
                         or is_call(c[1], "ipp::model::ValueTag::from_u8")
-                elif c[0] == "guard" and c[2] is True:
-                    g = c[1]
-                    if isinstance(g, tuple) and g[0] == "bin" and g[1] == "Eq" and g[2][0] == "lit" and is_call(g[3]):
-                        g = ("bin", "Eq", g[3], g[2])       # commuted
-                    okc = isinstance(g, tuple) and g[0] == "bin" and g[1] == "Eq" and is_call(g[2]) and g[2][1] in ("bytes::Bytes::len", "bytes::Buf::remaining") and \
-                        g[3][0] == "lit" and (not fixed or g[3][1] == size)
-                elif c[0] == "if":
-                    okc = is_call(c[1], "<is_err>") and c[2] is False and is_call(c[1][2][0], "ipp::value::get_len_string")
+                elif c[0] in ("guard", "if") and is_call(c[1], "<is_err>"):
+                    okc = c[2] is False and is_call(c[1][2][0], "ipp::value::get_len_string")
+                elif c[0] in ("guard", "if"):
+                    # `data.len() == n` as an arm guard or as an earlier test, written positively or as a refused `!=`
+                    g, pol = c[1], c[2]
+                    while isinstance(g, tuple) and g[0] == "un" and g[1] == "Not":
+                        g, pol = g[2], not pol
+                    if isinstance(g, tuple) and g[0] == "bin" and g[1] in ("Eq", "Ne") and g[2][0] == "lit" and is_call(g[3]):
+                        g = ("bin", g[1], g[3], g[2])       # commuted
+                    okc = isinstance(g, tuple) and g[0] == "bin" and ((g[1] == "Eq" and pol is True) or (g[1] == "Ne" and pol is False)) and is_call(g[2]) and \
+                        g[2][1] in ("bytes::Bytes::len", "bytes::Buf::remaining") and g[3][0] == "lit" and (not fixed or g[3][1] == size)
                 run.ob(rule, "decoder arm of %s is selected by tag and exact length only" % k, okc,
                        "extra or unrecognised condition on the decoding path of %s: %s (accepted: the tag match, `data.len() == %s` for a fixed-size syntax, "
                        "success of the inner length-prefixed strings)" % (k, cshow(c)[:160], size if fixed else "n"), site(pb),
@@ -667,8 +670,8 @@ def r_frame(run, F, rule="R-FRAME"):
             run.anchor_lost(rule, rty + "::read_header")
             continue
         for p in paths_of(rb):
-            if p.kind == "try":
-                continue
+            if p.kind == "try" or (p.ret[0] == "ctor" and p.ret[1].endswith("::Err")):
+                continue            # a failed read handed on (`?`, or `Err(e) => return Err(e)` written out)
             reads = [t[1].split("::")[-1] for t in p.trace if is_call(t) and t[1].startswith(rty) and "::read_" in t[1]]
             r = p.ret
             hv = r[2][0] if (r[0] == "ctor" and r[1].endswith("::Ok") and r[2]) else None
@@ -677,7 +680,7 @@ def r_frame(run, F, rule="R-FRAME"):
                 calls = [t for t in p.trace if is_call(t) and t[1].startswith(rty) and "::read_" in t[1]]
 
                 def src(x):
-                    while isinstance(x, tuple) and x[0] in ("ok?", "await"):
+                    while isinstance(x, tuple) and (x[0] in ("ok?", "await") or (x[0] == "proj" and str(x[2]) == "Ok.0")):
                         x = x[1]
                     return x
                 a0 = hv[2][0]
@@ -685,16 +688,18 @@ def r_frame(run, F, rule="R-FRAME"):
                 ok = v_ok and src(hv[2][1])[3] is calls[1][3] and src(hv[2][2])[3] is calls[2][3]
             run.ob(rule, "%s::read_header reads u16,u16,u32 into (version, operation-or-status, request-id)" % rty.split("::")[-1], ok,
                    "reads %s -> %s" % (reads, tshow(hv)[:160]), site(rb), key="%s|%s|header-dec" % (rule, rty))
-        for name, second in (("read_name", "read_string"), ("read_value", "read_bytes")):
+        rs = F.body("%s::<R>::read_string" % rty)
+        for name in ("read_name", "read_value"):
             b = F.body("%s::<R>::%s" % (rty, name))
             if b is None:
                 run.anchor_lost(rule, "%s::%s" % (rty, name))
                 continue
-            for p in paths_of(b):
-                if p.kind == "try":
+            # the private text helper read_string is judged inlined (it may or may not exist as a function of its own)
+            for p in paths_of(b, inline={rty + "::<R>::read_string": rs} if rs is not None else None):
+                if p.kind == "try" or (p.ret[0] == "ctor" and p.ret[1].endswith("::Err")):
                     continue
                 reads = [t[1].split("::")[-1] for t in p.trace if is_call(t) and t[1].startswith(rty)]
-                run.ob(rule, "%s::%s = u16 length then that many bytes" % (rty.split("::")[-1], name), reads == ["read_u16", second], str(reads), site(b),
+                run.ob(rule, "%s::%s = u16 length then that many bytes" % (rty.split("::")[-1], name), reads == ["read_u16", "read_bytes"], str(reads), site(b),
                        key="%s|%s|%s" % (rule, rty, name))
     ab = F.body("ipp::attribute::IppAttribute::to_bytes")
     if ab is None:
@@ -718,12 +723,14 @@ def r_frame(run, F, rule="R-FRAME"):
     for pty in PARSERS:
         if pty.endswith("AsyncIppParser") and not async_on(F):
             continue
-        b = F.body(pty + "::<R>::parse_value")
-        if b is None:
+        from .readerrules import value_step
+        vs_ = value_step(F, pty, pty.replace("parser::", "reader::").replace("Parser", "Reader") + "::<R>::")
+        if vs_ is None:
             run.anchor_lost(rule, pty + "::parse_value")
             continue
-        for p in paths_of(b):
-            if p.kind == "try":
+        b, steps, is_tag = vs_
+        for p in steps:
+            if p.kind == "try" or not any(is_call(t, "ipp::parser::ParserState::parse_value") for t in p.trace):
                 continue
             reads = [t for t in p.trace if is_call(t) and "::read_" in t[1]]
             st = [t for t in p.trace if is_call(t, "ipp::parser::ParserState::parse_value")]
@@ -732,7 +739,7 @@ def r_frame(run, F, rule="R-FRAME"):
                 while isinstance(x, tuple) and x[0] in ("ok?", "await"):
                     x = x[1]
                 return x
-            ok = [t[1].split("::")[-1] for t in reads] == ["read_name", "read_value"] and len(st) == 1 and st[0][2][1] == ("var", "tag") and \
+            ok = [t[1].split("::")[-1] for t in reads] == ["read_name", "read_value"] and len(st) == 1 and is_tag(st[0][2][1]) and \
                 src(st[0][2][2])[3] is reads[0][3] and src(st[0][2][3])[3] is reads[1][3]
             run.ob(rule, "%s::parse_value reads name then value and hands (tag, name, value) to the state machine" % pty.split("::")[-1], ok,
                    [tshow(t)[:60] for t in reads + st], site(b), key="%s|%s|attribute-dec" % (rule, pty))
